@@ -110,6 +110,8 @@ class ServerWorld:
 
             def connect(s, client):
                 world.hev("connect", client)
+                if world.greet:
+                    client.send(b"\x00\x00\x00\x00GREETING-from-the-server-" + bytes(range(64)))
                 s._maybe("connect")
 
             def disconnect(s, client):
@@ -152,6 +154,12 @@ class ServerWorld:
         self.sent_to = collections.defaultdict(list)   # addr -> datagrams the server sent (attacker's view)
         self.seen_from = collections.defaultdict(list)  # addr -> genuine client datagrams (for replays)
         self.tick_us = int(round(interval * 1e6)) + 1
+        self.tickno = 0
+        self.delayed_in = []       # (due tick, datagram, addr, kind, genuine)
+        self.delayed_out = []      # (due tick, datagram, addr)
+        self.delivered_before = set()
+        self.keys = {}
+        self.greet = False
         self.ev.append(dict(ev="cfg", interval=int(interval * 1e4), conn_timeout=int(self.ctxt.connection_timeout * 1e4), temp_timeout=int(self.ctxt.temp_connection_timeout * 1e4),
                             keepalive=int(self.ctxt.keep_alive_interval * 1e4), msg_timeout=int(self.ctxt.outgoing_timeout * 1e4), tick=self.tick_us // 100,
                             blocked=[self.aid((ip, 0)) for ip in blocklist], echo_deadline=int(echo_deadline * 1e4)))
@@ -188,12 +196,44 @@ class ServerWorld:
                             token=(client.token if client is not None else 0) % 1000003, tid=threading.get_ident() % 1000003, raised=0, tag=tag if tag < 2 ** 31 else 0,
                             n=len(msg)))
 
+    def sealed_for(self, d, addr):
+        """1 if the datagram opens under the session key of the connection at that address (harness's own AES-GCM), 2 if it is a plain CRC datagram, 0 otherwise"""
+        import struct as st
+        self.note_keys()
+        from cryptography.hazmat.primitives.ciphers.aead import AESGCM
+        for key in self.keys.get(addr, ()):
+            try:
+                AESGCM(key).decrypt(d[:12], d[20:], d[:20])
+                return 1
+            except Exception:
+                pass
+        try:
+            ln = st.unpack(">H", d[13:15])[0]
+            body = d[:20 + ln]
+            if st.unpack(">L", d[20 + ln:24 + ln])[0] == impl.mod("crypto").crc32(body):
+                return 2
+        except Exception:
+            pass
+        return 0
+
+    def note_keys(self):
+        """the session keys ever agreed for an address (key material only; the final DISCONNECT is sent after the connection left the pool)"""
+        for pool in (self.ctxt.connections, self.ctxt.temp_connections):
+            for a, conn in list(pool.items()):
+                k = getattr(conn, "session_key_bytes", None)
+                if k:
+                    self.keys.setdefault(a, set()).add(bytes(k))
+
     def server_out(self, d, addr):
-        self.ev.append(dict(ev="tx", now=self.now(), a=self.aid(addr), n=len(d)))
+        self.ev.append(dict(ev="tx", now=self.now(), a=self.aid(addr), n=len(d), ptype=d[12] if len(d) > 12 else -1, count=d[15] if len(d) > 15 else -1,
+                            sealed=self.sealed_for(d, addr)))
         self.sent_to[addr].append(d)
         for c in self.clients.values():
             if c["addr"] == addr and not c["deaf"]:
-                c["sock"].inbox.append(d)
+                if c.get("delay"):
+                    self.delayed_out.append((self.tickno + c["delay"], d, addr))
+                else:
+                    c["sock"].inbox.append(d)
 
     def client_out(self, cid, d):
         c = self.clients[cid]
@@ -201,7 +241,10 @@ class ServerWorld:
         self.seen_from[c["addr"]].append(d)
         self.producer[d] = cid
         if not c["cut"]:
-            self.to_server.append((d, c["addr"], "client", cid))
+            if c.get("delay"):
+                self.delayed_in.append((self.tickno + c["delay"], d, c["addr"], "client", cid))
+            else:
+                self.to_server.append((d, c["addr"], "client", cid))
 
     # ---------------------------------------------------------------- environment actions
     def add_client(self, cid, addr, keepalive=None, conn_timeout=None, msg_timeout=None, callback=None, pubkey="server", setters_after=()):
@@ -311,8 +354,16 @@ class ServerWorld:
     def tick(self, deliver=True, loss=0.0):
         """Advance one server interval: clients update, their datagrams reach datagramReceived, one server loop iteration runs."""
         self.vt.us += self.tick_us
+        self.tickno += 1
+        for x in [x for x in self.delayed_out if x[0] <= self.tickno]:
+            for c in self.clients.values():
+                if c["addr"] == x[2] and not c["deaf"]:
+                    c["sock"].inbox.append(x[1])
+        self.delayed_out = [x for x in self.delayed_out if x[0] > self.tickno]
         for cid in list(self.clients):
             self.client_tick(cid)
+        self.to_server += [x[1:] for x in self.delayed_in if x[0] <= self.tickno]
+        self.delayed_in = [x for x in self.delayed_in if x[0] > self.tickno]
         pend = self.to_server
         self.to_server = []
         if deliver:
@@ -322,10 +373,14 @@ class ServerWorld:
                 q0 = len(self.srv.thread.queue)
                 blocked = int(addr[0] in self.ctxt.blocklist)
                 self.srv.datagramReceived(d, addr)
-                self.ev.append(dict(ev="rx", now=self.now(), a=self.aid(addr), n=len(d), blocked=blocked, kind=kind, genuine=int(kind == "client"), c=int(genuine) if kind == "client" else self.producer.get(d, 0), q=len(self.srv.thread.queue) - q0,
+                dupe = int((d, addr) in self.delivered_before)      # these exact bytes reached the server from this address before: a true duplicate
+                self.delivered_before.add((d, addr))
+                self.ev.append(dict(ev="rx", now=self.now(), a=self.aid(addr), n=len(d), blocked=blocked, kind=kind, dupe=dupe, genuine=int(kind == "client"), c=int(genuine) if kind == "client" else self.producer.get(d, 0), q=len(self.srv.thread.queue) - q0,
                                     ptype=d[12] if len(d) > 12 else -1))
+        self.note_keys()
         if not self.stopped:
             self.baton.drv_step()
+        self.note_keys()
         self.ev.append(dict(ev="tick", now=self.now(), alive=int(self.th.is_alive()), conns=sorted(self.aid(a) for a in self.ctxt.connections),
                             temps=sorted(self.aid(a) for a in self.ctxt.temp_connections)))
 
